@@ -694,7 +694,7 @@ def parts(tier):
             name="core",
             evaluate=evaluate,
             strategy=lambda: core_strategy(w),
-            budget={"quick": 260, "thorough": 3200},
+            budget={"quick": 230, "thorough": 3200},
             shards={"quick": 1, "thorough": 16},
             min_nontrivial={"quick": 60, "thorough": 800},
         ),
@@ -702,7 +702,7 @@ def parts(tier):
             name="ext",
             evaluate=evaluate,
             strategy=lambda: ext_strategy(w),
-            budget={"quick": 160, "thorough": 1600},
+            budget={"quick": 140, "thorough": 1600},
             shards={"quick": 1, "thorough": 16},
             min_nontrivial={"quick": 25, "thorough": 250},
         ),
